@@ -377,13 +377,21 @@ def run_oracle(wntr, sc):
 
     wn = build_run_wn(wntr, sc)
     sim = wntr.sim.WNTRSimulator(wn)
+    kw = {"HW_approx": "piecewise"} if sc.get("piecewise") else {}
     try:
-        res = sim.run_sim()
+        res = sim.run_sim(**kw)
+        if sc.get("rerun"):
+            # the SAME simulator object used again after a reset: it must not keep anything from the first run
+            wn.reset_initial_values()
+            res = sim.run_sim(**kw)
     except Exception as e:
         return ("run-raises", "run_sim raised %s: %s" % (type(e).__name__, e), {"exception": repr(e)}), {}
     stats = {"iso_steps": 0, "conn_steps": 0, "reconnect": 0, "steps": 0}
     if res.error_code is not None:
-        return None, {"unconverged": 1}  # the statement speaks of runs that solve; counted, not judged
+        # plain pipes, one or more fixed-head sources, demand-driven or PDD with mild demands: nothing but the isolation
+        # bookkeeping can make such a run fail ("the simulator still solves the rest of the network")
+        return ("rest-not-solved", "run_sim did not converge (error_code %r, last reported time %s)"
+                % (res.error_code, list(res.node["pressure"].index)[-1:]), {"error_code": repr(res.error_code)}), {"unconverged": 1}
     times = list(res.node["pressure"].index)
     if times != [t * 3600 for t in range(sc["steps"] + 1)]:
         return ("steps-missing", "reported times %s" % times, {"times": times}), stats
@@ -682,6 +690,16 @@ class C09(Check):
             nets.append((net, [ACTIVE] * len(net["links"]), ["p"]))
         runs = [gen_run(rng, quick=q) for _ in range(14 if q else 120)]
         runs += [gen_swap_run(rng) for _ in range(3 if q else 20)]
+        # variants of the same scenarios: the piecewise Hazen-Williams rows, and a second run of the same simulator object
+        extra = []
+        for i, sc in enumerate(runs):
+            if i % 4 == 0:
+                extra.append(dict(sc, piecewise=True))
+            if i % 4 == 1:
+                extra.append(dict(sc, rerun=True))
+            if i % 8 == 2:
+                extra.append(dict(sc, rerun=True, piecewise=True))
+        runs += extra
         return csr, nets, runs
 
     def correspondence(self, ctx):
